@@ -117,7 +117,15 @@ type Parser struct {
 
 	// Are we inside a function?
 	function bool
+
+	// depth is the number of expressions we're currently
+	// in the middle of parsing.
+	depth int
 }
+
+// maxNesting is the deepest nesting of expressions (and so of blocks,
+// which are part of if/while/foreach/function expressions) we accept.
+const maxNesting = 2000
 
 // New returns a new parser.
 //
@@ -313,6 +321,19 @@ func (p *Parser) parseExpressionStatement() *ast.ExpressionStatement {
 
 // parse an expression.
 func (p *Parser) parseExpression(precedence int) ast.Expression {
+
+	// Expressions, and the blocks they contain, nest: each level of
+	// nesting costs us stack-frames, here and later in the compiler.
+	// Input which nests absurdly deep must be rejected with an error
+	// before it can exhaust the stack of our host.
+	p.depth++
+	defer func() { p.depth-- }()
+	if p.depth > maxNesting {
+		msg := fmt.Sprintf("expression nested too deeply around %s", p.curToken.Position())
+		p.errors = append(p.errors, msg)
+		return nil
+	}
+
 	postfix := p.postfixParseFns[p.curToken.Type]
 	if postfix != nil {
 		return (postfix())
